@@ -96,16 +96,12 @@ Definition unc_msg (acc : state * bool) (m : msg) : state * bool :=
   end.
 Definition unc_batch (acc : state * bool) (b : list msg) : state * bool :=
   let '(s, u) := acc in (fst (trace_batch (s, []) b), snd (fold_left unc_msg b (s, u))).
-(* the mutations of a stream that were committed after the stream-end recompute: does one change a key? *)
-Definition late_changes (s : state) (os : list op) (early : list bool) : bool :=
-  let s1 := fst (trace_batches (s, []) (map (fun o => [MOp o]) (select early os) ++ [[MCompute]])) in
-  snd (fold_left (fun (acc : state * bool) o => let '(x, u) := acc in
-                    let x' := fst (trace_batch (x, []) [MOp o]) in (x', u || nonempty (changed_keys x x')))
-                 (select (map negb early) os) (s1, false)).
+(* a stream some of whose mutations were committed after (or in the batch of) the stream-end recompute *)
+Definition has_late (a : api) : bool := match a with AStream _ early => existsb negb early | _ => false end.
 Definition api_classes (acc : state * list Z) (a : api) : state * list Z :=
   let '(s, cl) := acc in
   let '(s', unc) := fold_left unc_batch (batches_of a) (s, false) in
-  (s', cl ++ (match a with AStream os early => if late_changes s os early then [1] else [] | _ => [] end)
+  (s', cl ++ (if has_late a then [1] else [])
           ++ (if unc then [3] else [])).
 Fixpoint zdedup18 (l : list Z) : list Z :=
   match l with [] => [] | x :: t => if existsb (Z.eqb x) t then zdedup18 t else x :: zdedup18 t end.
